@@ -113,12 +113,21 @@ def run(ctx):
                                    imm0=op.Immediate(3), imm1=op.Immediate(4), imm2=op.Immediate(5),
                                    imm3=op.Immediate(6))
     subs.append(("vanilla", [mb]))
+    subs.append(("nv", [mb]))
+    subs.append(("reids", [mb]))
     for _ in range(n_subs):
         fname = rng.choice(list(H.FLAVOURS))
         n = rng.choice([0, 1, 2, 3, 5, 8, 13, rng.randrange(40)])
         subs.append((fname, [H.random_instr(fname, rng) for _ in range(n)]))
     sm = ctx.driver.batch([{"op": "text.parse", "fl": f, "lines": [X.real_print(i) for i in instrs]}
                            for f, instrs in subs])
+
+    def _deserialize_default(raw):
+        from netqasm.lang.parsing.binary import deserialize
+        try:
+            return deserialize(bytes(raw))
+        except Exception:
+            return None
 
     def tbt(fname, instrs):
         """text -> objects -> binary -> objects -> text on the real code; None if stable"""
@@ -127,14 +136,20 @@ def run(ctx):
         if sub is None or list(sub.instructions) != list(instrs):
             return {"stage": "text->objects", "parsed": rp}
         raw = H.real_encode_sub(list(sub.instructions), 0, (0, 0))
-        back = H.real_decode_sub(fname, raw) if raw is not None else None
-        if back is None:
-            return {"stage": "binary", "bytes": raw}
-        lines2 = [X.real_print(i) for i in back.instructions]
-        if lines2 != lines:
-            diff = [k for k, (a, b) in enumerate(zip(lines, lines2)) if a != b]
-            return {"stage": "binary->text", "differs_at": diff[:5],
-                    "first": [lines[diff[0]], lines2[diff[0]]] if diff else None}
+        # the binary leg through every public entry point: the Deserializer class, the function
+        # `deserialize(data, flavour=f)` and, for vanilla, its default-flavour form `deserialize(data)`
+        entries = [("Deserializer(flavour)", H.real_decode_sub), ("deserialize(data, flavour)", H.real_decode_sub_fn)]
+        if fname == "vanilla":
+            entries.append(("deserialize(data)", lambda f, r: _deserialize_default(r)))
+        for ename, dec in entries:
+            back = dec(fname, raw) if raw is not None else None
+            if back is None:
+                return {"stage": "binary", "entry": ename, "bytes": raw}
+            lines2 = [X.real_print(i) for i in back.instructions]
+            if lines2 != lines:
+                diff = [k for k, (a, b) in enumerate(zip(lines, lines2)) if a != b]
+                return {"stage": "binary->text", "entry": ename, "differs_at": diff[:5],
+                        "first": [lines[diff[0]], lines2[diff[0]]] if diff else None}
         return None
 
     for (fname, instrs), mq in zip(subs, sm):
